@@ -3,6 +3,7 @@
     depend on the order / scale / labelling in which the same data are presented. *)
 From Coq Require Import Reals Lra Lia List Bool ZArith Permutation Sorted.
 From Cij Require Import Ops ROps NonShearModel PermModel.
+From Cij Require Poly ElastDatModel ElastDat.
 Import ListNotations.
 Local Open Scope R_scope.
 
@@ -286,3 +287,308 @@ Section Lookup.
       apply (alookup_In l k v' ND) in E'. congruence.
   Qed.
 End Lookup.
+
+(* ------------------------------------------------------------------------------------ *)
+(** * Least-squares fits: row order *)
+
+Lemma Rs_lin {A} (f g : A -> R) a l : Rs (map (fun x => a * f x + g x) l) = a * Rs (map f l) + Rs (map g l).
+Proof. induction l as [|x l IH]; cbn [map]; rewrite ?Rs_cons, ?Rs_nil, ?IH; ring. Qed.
+Lemma Rs_ext {A} (f g : A -> R) l : (forall x, In x l -> f x = g x) -> Rs (map f l) = Rs (map g l).
+Proof.
+  induction l as [|x l IH]; intros H; cbn [map]; rewrite ?Rs_cons; [reflexivity|].
+  rewrite (H x (or_introl eq_refl)), IH; [reflexivity|]. intros y Hy. apply H. right. exact Hy.
+Qed.
+Lemma Rs_zero {A} (f : A -> R) l : (forall x, In x l -> f x = 0) -> Rs (map f l) = 0.
+Proof.
+  induction l as [|x l IH]; intros H; cbn [map]; rewrite ?Rs_cons, ?Rs_nil; [reflexivity|].
+  rewrite (H x (or_introl eq_refl)), IH; [ring|]. intros y Hy. apply H. right. exact Hy.
+Qed.
+Lemma Rs_minus {A} (f g : A -> R) l : Rs (map (fun x => f x - g x) l) = Rs (map f l) - Rs (map g l).
+Proof. induction l as [|x l IH]; cbn [map]; rewrite ?Rs_cons, ?Rs_nil, ?IH; ring. Qed.
+Lemma Rs_sq_nonneg {A} (f : A -> R) l : 0 <= Rs (map (fun x => f x * f x) l).
+Proof.
+  induction l as [|x l IH]; cbn [map]; rewrite ?Rs_cons, ?Rs_nil; [lra|].
+  pose proof (Rle_0_sqr (f x)) as S. unfold Rsqr in S. lra.
+Qed.
+Lemma Rs_sq_zero {A} (f : A -> R) l : Rs (map (fun x => f x * f x) l) = 0 -> forall x, In x l -> f x = 0.
+Proof.
+  induction l as [|y l IH]; cbn [map]; rewrite ?Rs_cons; intros H x Hin; [destruct Hin|].
+  pose proof (Rs_sq_nonneg f l) as N. pose proof (Rle_0_sqr (f y)) as S. unfold Rsqr in S.
+  assert (Hy : f y * f y = 0) by lra.
+  destruct Hin as [<-|Hin].
+  - apply Rmult_integral in Hy. destruct Hy; assumption.
+  - apply IH; [lra | exact Hin].
+Qed.
+
+(** the entries of A^T A and A^T y of a polynomial fit do not depend on the order of the data rows *)
+Lemma polyfit_row_perm_l (rows rows' : list (R * R)) :
+  Permutation rows rows' ->
+  forall k, mom (OF:=ROps) k rows = mom (OF:=ROps) k rows' /\ momy (OF:=ROps) k rows = momy (OF:=ROps) k rows'.
+Proof. intros H k. unfold mom, momy. split; apply Rs_map_perm, H. Qed.
+
+Lemma sum_pow_pe (rows : list (R * R)) (c : list R) : forall j,
+  Rs (map (fun r => powN (OF:=ROps) (fst r) j * pe (OF:=ROps) c (fst r)) rows) = cmom (OF:=ROps) j rows c.
+Proof.
+  induction c as [|a c IH]; intros j; cbn [pe cmom]; ropsP.
+  - apply Rs_zero. intros; ring.
+  - rewrite <- IH. unfold mom. fold (Rs (map (fun r : R * R => powN (OF:=ROps) (fst r) j) rows)).
+    rewrite <- Rs_lin. apply Rs_ext. intros r _. cbn [powN]. ropsP. ring.
+Qed.
+(** the normal equations mention the data only through the moment sums *)
+Lemma nresid_moments (j : nat) (rows : list (R * R)) (c : list R) :
+  nresid (OF:=ROps) j rows c = cmom (OF:=ROps) j rows c - momy (OF:=ROps) j rows.
+Proof.
+  unfold nresid, momy. fold (Rs (map (fun r : R * R => powN (OF:=ROps) (fst r) j * snd r) rows)).
+  rewrite <- sum_pow_pe, <- Rs_minus. apply Rs_ext. intros r _. ropsP. ring.
+Qed.
+Lemma cmom_perm (rows rows' : list (R * R)) (c : list R) :
+  Permutation rows rows' -> forall j, cmom (OF:=ROps) j rows c = cmom (OF:=ROps) j rows' c.
+Proof.
+  intros H. induction c as [|a c IH]; intros j; cbn [cmom]; [reflexivity|].
+  rewrite IH. destruct (polyfit_row_perm_l _ _ H j) as [-> _]. reflexivity.
+Qed.
+Lemma normal_eq_row_perm_l (n : nat) (rows rows' : list (R * R)) (c : list R) :
+  Permutation rows rows' -> (normal_eq n rows c <-> normal_eq n rows' c).
+Proof.
+  intros H. unfold normal_eq. split; intros N j Hj; specialize (N j Hj); rewrite nresid_moments in *;
+    destruct (polyfit_row_perm_l _ _ H j) as [_ E].
+  - rewrite <- (cmom_perm _ _ c H), <- E. exact N.
+  - rewrite (cmom_perm _ _ c H), E. exact N.
+Qed.
+
+Lemma gresid_perm {X} (p : X -> R) phi (pts pts' : list (X * R)) c :
+  Permutation pts pts' -> gresid (OF:=ROps) p phi pts c = gresid (OF:=ROps) p phi pts' c.
+Proof. intros H. unfold gresid. apply Rs_map_perm, H. Qed.
+Lemma gnormal_eq_row_perm_l {X} (phi : list (X -> R)) (pts pts' : list (X * R)) (c : list R) :
+  Permutation pts pts' -> (gnormal_eq phi pts c <-> gnormal_eq phi pts' c).
+Proof.
+  intros H. unfold gnormal_eq. split; intros N; eapply Forall_impl; try exact N; intros p Hp; cbv beta in *.
+  - rewrite <- (gresid_perm p phi _ _ c H). exact Hp.
+  - rewrite (gresid_perm p phi _ _ c H). exact Hp.
+Qed.
+
+(* ------------------------------------------------------------------------------------ *)
+(** * Least-squares fits: the fitted values depend on the column space only *)
+
+Definition orth {X} (e : X * R -> R) (pts : list (X * R)) (p : X -> R) : Prop :=
+  Rs (map (fun r => p (fst r) * e r) pts) = 0.
+
+Lemma fitv_nil_l {X} (c : list R) (x : X) : fitv (OF:=ROps) [] c x = 0.
+Proof. unfold fitv. destruct c; reflexivity. Qed.
+Lemma fitv_nil_r {X} (phi : list (X -> R)) (x : X) : fitv (OF:=ROps) phi [] x = 0.
+Proof. reflexivity. Qed.
+Lemma fitv_cons {X} (p : X -> R) phi a c (x : X) :
+  fitv (OF:=ROps) (p :: phi) (a :: c) x = a * p x + fitv (OF:=ROps) phi c x.
+Proof. reflexivity. Qed.
+
+(** a vector orthogonal to every column is orthogonal to every combination of the columns *)
+Lemma orth_fitv {X} (e : X * R -> R) (pts : list (X * R)) (phi : list (X -> R)) :
+  Forall (orth e pts) phi -> forall m, orth e pts (fitv (OF:=ROps) phi m).
+Proof.
+  induction 1 as [|p phi Hp _ IH]; intros m; unfold orth in *.
+  - apply Rs_zero. intros; rewrite fitv_nil_l; ring.
+  - destruct m as [|a m].
+    + apply Rs_zero. intros; rewrite fitv_nil_r; ring.
+    + rewrite (Rs_ext _ (fun r => a * (p (fst r) * e r) + fitv (OF:=ROps) phi m (fst r) * e r))
+        by (intros; rewrite fitv_cons; ring).
+      rewrite Rs_lin, Hp, IH. ring.
+Qed.
+Lemma orth_transfer {X} (e : X * R -> R) (pts : list (X * R)) (phi psi : list (X -> R)) :
+  span_le psi phi pts -> Forall (orth e pts) phi -> Forall (orth e pts) psi.
+Proof.
+  intros S H. unfold span_le in S. eapply Forall_impl; [|exact S]. intros q [m Hm]. unfold orth.
+  rewrite (Rs_ext _ (fun r => fitv (OF:=ROps) phi m (fst r) * e r)) by (intros r Hr; rewrite (Hm r Hr); reflexivity).
+  apply (orth_fitv e pts phi H m).
+Qed.
+
+Definition resid {X} (phi : list (X -> R)) (c : list R) (r : X * R) : R := fitv (OF:=ROps) phi c (fst r) - snd r.
+Lemma gnormal_eq_orth {X} (phi : list (X -> R)) pts c : gnormal_eq phi pts c <-> Forall (orth (resid phi c) pts) phi.
+Proof. reflexivity. Qed.
+
+Lemma lsq_core {X} (phi psi : list (X -> R)) (pts : list (X * R)) (c d : list R) :
+  Forall (orth (resid phi c) pts) phi -> Forall (orth (resid phi c) pts) psi ->
+  Forall (orth (resid psi d) pts) phi -> Forall (orth (resid psi d) pts) psi ->
+  forall r, In r pts -> fitv (OF:=ROps) phi c (fst r) = fitv (OF:=ROps) psi d (fst r).
+Proof.
+  intros H11 H12 H21 H22.
+  set (e := fun r : X * R => fitv (OF:=ROps) phi c (fst r) - fitv (OF:=ROps) psi d (fst r)).
+  assert (Z : Rs (map (fun r => e r * e r) pts) = 0).
+  { pose proof (orth_fitv _ pts phi H11 c) as A1. pose proof (orth_fitv _ pts phi H21 c) as A2.
+    pose proof (orth_fitv _ pts psi H12 d) as B1. pose proof (orth_fitv _ pts psi H22 d) as B2.
+    unfold orth in A1, A2, B1, B2.
+    rewrite (Rs_ext _ (fun r => (fitv (OF:=ROps) phi c (fst r) * resid phi c r - fitv (OF:=ROps) phi c (fst r) * resid psi d r)
+                                - (fitv (OF:=ROps) psi d (fst r) * resid phi c r - fitv (OF:=ROps) psi d (fst r) * resid psi d r)))
+      by (intros r _; unfold e, resid; ring).
+    rewrite !Rs_minus, A1, A2, B1, B2. ring. }
+  intros r Hr. pose proof (Rs_sq_zero e pts Z r Hr) as E. unfold e in E. lra.
+Qed.
+
+(** normal_eq_unique_fit: A^T(Ac - y) = 0 and A^T(Ad - y) = 0  imply  A c = A d *)
+Lemma normal_eq_unique_fit_l {X} (phi : list (X -> R)) (pts : list (X * R)) (c d : list R) :
+  gnormal_eq phi pts c -> gnormal_eq phi pts d ->
+  forall r, In r pts -> fitv (OF:=ROps) phi c (fst r) = fitv (OF:=ROps) phi d (fst r).
+Proof. intros Hc Hd. apply lsq_core; assumption. Qed.
+
+(** two design matrices with the same column space give the same fitted values *)
+Lemma lsq_fit_same_span_l {X} (phi psi : list (X -> R)) (pts : list (X * R)) (c d : list R) :
+  span_le phi psi pts -> span_le psi phi pts -> gnormal_eq phi pts c -> gnormal_eq psi pts d ->
+  forall r, In r pts -> fitv (OF:=ROps) phi c (fst r) = fitv (OF:=ROps) psi d (fst r).
+Proof.
+  intros S1 S2 Hc Hd. apply lsq_core; try assumption.
+  - eapply orth_transfer; [exact S2 | exact Hc].
+  - eapply orth_transfer; [exact S1 | exact Hd].
+Qed.
+
+(* ------------------------------------------------------------------------------------ *)
+(** * Affine re-parametrisation of the strain coordinate of a cubic fit *)
+
+(** explicit 4x4 change of basis: [1, s', s'^2, s'^3] in terms of [1, s, s^2, s^3] for s' = a s + b *)
+Lemma cubic_span {X} (s s' : X -> R) (a b : R) (pts : list (X * R)) :
+  (forall r, In r pts -> s' (fst r) = a * s (fst r) + b) ->
+  span_le (cubic_basis s') (cubic_basis s) pts.
+Proof.
+  intros H. unfold span_le, cubic_basis. repeat constructor.
+  - exists [1]. intros r Hr. unfold fitv. cbn [map dot]. ropsP. ring.
+  - exists [b; a]. intros r Hr. unfold fitv. cbn [map dot]. ropsP. rewrite (H r Hr). ring.
+  - exists [b * b; 2 * a * b; a * a]. intros r Hr. unfold fitv. cbn [map dot]. ropsP. rewrite (H r Hr). ring.
+  - exists [b * b * b; 3 * a * b * b; 3 * a * a * b; a * a * a]. intros r Hr. unfold fitv. cbn [map dot]. ropsP.
+    rewrite (H r Hr). ring.
+Qed.
+
+Lemma polyfit_affine_reparam_l {X} (s s' : X -> R) (a b : R) (pts : list (X * R)) (c d : list R) :
+  a <> 0 -> (forall r, In r pts -> s' (fst r) = a * s (fst r) + b) ->
+  gnormal_eq (cubic_basis s) pts c -> gnormal_eq (cubic_basis s') pts d ->
+  forall r, In r pts -> cubic c (s (fst r)) = cubic d (s' (fst r)).
+Proof.
+  intros Ha H Hc Hd r Hr.
+  change (fitv (OF:=ROps) (cubic_basis s) c (fst r) = fitv (OF:=ROps) (cubic_basis s') d (fst r)).
+  apply (lsq_fit_same_span_l (cubic_basis s) (cubic_basis s') pts c d); try assumption.
+  - apply (cubic_span s' s (/ a) (- b / a)). intros r' Hr'. rewrite (H r' Hr'). field. exact Ha.
+  - apply (cubic_span s s' a b). exact H.
+Qed.
+
+(** with four distinct strain values among the data the two cubics coincide as functions,
+    i.e. also at the volumes of the finer grid where the code evaluates the fit *)
+Lemma cubic4 (c0 c1 c2 c3 f : R) : cubic [c0; c1; c2; c3] f = c0 + c1 * f + c2 * (f * f) + c3 * (f * f * f).
+Proof. unfold cubic, fitv, cubic_basis. cbn [map dot]. ropsP. ring. Qed.
+
+Lemma polyfit_affine_reparam_everywhere_l {X} (s s' : X -> R) (a b : R) (pts : list (X * R)) (c d : list R) (fs : list R) :
+  a <> 0 -> (forall r, In r pts -> s' (fst r) = a * s (fst r) + b) ->
+  length c = 4%nat -> length d = 4%nat ->
+  NoDup fs -> (4 <= length fs)%nat -> incl fs (map (fun r => s (fst r)) pts) ->
+  gnormal_eq (cubic_basis s) pts c -> gnormal_eq (cubic_basis s') pts d ->
+  forall f, cubic c f = cubic d (a * f + b).
+Proof.
+  intros Ha H Lc Ld ND L4 Inc Hc Hd f.
+  destruct c as [|c0 [|c1 [|c2 [|c3 [|]]]]]; try discriminate.
+  destruct d as [|d0 [|d1 [|d2 [|d3 [|]]]]]; try discriminate.
+  set (p := [c3 - a * a * a * d3; c2 - (3 * a * a * b * d3 + a * a * d2);
+             c1 - (3 * a * b * b * d3 + 2 * a * b * d2 + a * d1);
+             c0 - (b * b * b * d3 + b * b * d2 + b * d1 + d0)]).
+  assert (P : forall x, Poly.pv p x = cubic [c0; c1; c2; c3] x - cubic [d0; d1; d2; d3] (a * x + b)).
+  { intros x. rewrite !cubic4. unfold p. cbn [Poly.pv length]. simpl pow. ring. }
+  assert (Z : Poly.pv p f = 0).
+  { apply (Poly.pv_roots_zero 4 p eq_refl fs ND L4). intros x Hx. rewrite P.
+    apply Inc, in_map_iff in Hx. destruct Hx as (r & <- & Hr).
+    rewrite <- (H r Hr). rewrite (polyfit_affine_reparam_l s s' a b pts _ _ Ha H Hc Hd r Hr). ring. }
+  rewrite P in Z. lra.
+Qed.
+
+(* ------------------------------------------------------------------------------------ *)
+(** * Eulerian strain: changing the reference volume is an affine re-parametrisation *)
+
+Lemma eulerian_reference_change_l (v0 v1 v : R) :
+  0 < v0 -> 0 < v1 -> 0 < v ->
+  let a := Rpower (v1 / v0) (2 / 3) in
+  eulerian v1 v = a * eulerian v0 v + (a - 1) / 2 /\ 0 < a.
+Proof.
+  intros H0 H1 Hv a. split.
+  - unfold eulerian, a. replace (v1 / v) with ((v1 / v0) * (v0 / v)) by (field; split; lra).
+    rewrite <- Rpower_mult_distr.
+    + field.
+    + apply Rdiv_lt_0_compat; assumption.
+    + apply Rdiv_lt_0_compat; assumption.
+  - unfold a, Rpower. apply exp_pos.
+Qed.
+
+Lemma eulerian_injective (v0 v v' : R) : 0 < v0 -> 0 < v -> 0 < v' -> eulerian v0 v = eulerian v0 v' -> v = v'.
+Proof.
+  intros H0 Hv Hv' E. unfold eulerian in E.
+  assert (P : Rpower (v0 / v) (2 / 3) = Rpower (v0 / v') (2 / 3)) by lra.
+  destruct (Rtotal_order v v') as [L|[L|L]]; [|exact L|]; exfalso.
+  - assert (Q : Rpower (v0 / v') (2 / 3) < Rpower (v0 / v) (2 / 3)).
+    { apply Rlt_Rpower_l; [lra|]. split; [apply Rdiv_lt_0_compat; assumption|].
+      unfold Rdiv. apply Rmult_lt_compat_l; [exact H0|]. apply Rinv_lt_contravar; [apply Rmult_lt_0_compat; assumption | exact L]. }
+    lra.
+  - assert (Q : Rpower (v0 / v) (2 / 3) < Rpower (v0 / v') (2 / 3)).
+    { apply Rlt_Rpower_l; [lra|]. split; [apply Rdiv_lt_0_compat; assumption|].
+      unfold Rdiv. apply Rmult_lt_compat_l; [exact H0|]. apply Rinv_lt_contravar; [apply Rmult_lt_0_compat; assumption | exact L]. }
+    lra.
+Qed.
+
+Lemma NoDup_map_inj_in {A B} (f : A -> B) (l : list A) :
+  (forall x y, In x l -> In y l -> f x = f y -> x = y) -> NoDup l -> NoDup (map f l).
+Proof.
+  intros Inj ND. induction ND as [|x l Hn ND IH]; cbn [map]; constructor.
+  - intros Hin. apply in_map_iff in Hin. destruct Hin as (y & E & Hy).
+    apply Hn. rewrite (Inj x y (or_introl eq_refl) (or_intror Hy) (eq_sym E)). exact Hy.
+  - apply IH. intros a b Ha Hb. apply Inj; right; assumption.
+Qed.
+
+(** fit_modulus: numpy.polyfit(eulerian(V_ref, V_i), y_i, 3) evaluated at eulerian(V_ref, V):
+    neither the order of the table rows nor the reference volume (the code takes the volume of
+    the FIRST row) changes the fitted function of V *)
+Lemma static_fit_presentation_free_l (v0 v1 : R) (pts pts' : list (R * R)) (c d : list R) :
+  0 < v0 -> 0 < v1 -> Forall (fun r => 0 < fst r) pts -> Permutation pts pts' ->
+  gnormal_eq (cubic_basis (eulerian v0)) pts c -> gnormal_eq (cubic_basis (eulerian v1)) pts' d ->
+  (forall r, In r pts -> cubic c (eulerian v0 (fst r)) = cubic d (eulerian v1 (fst r))) /\
+  (length c = 4%nat -> length d = 4%nat ->
+   (exists vs, NoDup vs /\ (4 <= length vs)%nat /\ incl vs (map fst pts)) ->
+   forall v, 0 < v -> cubic c (eulerian v0 v) = cubic d (eulerian v1 v)).
+Proof.
+  intros H0 H1 Hpos HP Hc Hd'.
+  assert (Hd : gnormal_eq (cubic_basis (eulerian v1)) pts d) by (apply (gnormal_eq_row_perm_l _ _ _ d HP); exact Hd').
+  set (a := Rpower (v1 / v0) (2 / 3)).
+  assert (Ha : a <> 0) by (pose proof (proj2 (eulerian_reference_change_l v0 v1 1 H0 H1 Rlt_0_1)); fold a in H; lra).
+  assert (H : forall r, In r pts -> eulerian v1 (fst r) = a * eulerian v0 (fst r) + (a - 1) / 2).
+  { intros r Hr. rewrite Forall_forall in Hpos. apply (eulerian_reference_change_l v0 v1 (fst r) H0 H1 (Hpos r Hr)). }
+  split.
+  - apply (polyfit_affine_reparam_l (eulerian v0) (eulerian v1) a ((a - 1) / 2) pts c d Ha H Hc Hd).
+  - intros Lc Ld (vs & ND & L4 & Inc) v Hv.
+    rewrite (proj1 (eulerian_reference_change_l v0 v1 v H0 H1 Hv)). fold a.
+    apply (polyfit_affine_reparam_everywhere_l (eulerian v0) (eulerian v1) a ((a - 1) / 2) pts c d
+             (map (eulerian v0) vs) Ha H Lc Ld); try assumption.
+    + apply NoDup_map_inj_in; [|exact ND].
+      intros x y Hx Hy E. rewrite Forall_forall in Hpos.
+      apply Inc, in_map_iff in Hx. destruct Hx as (rx & <- & Hrx).
+      apply Inc, in_map_iff in Hy. destruct Hy as (ry & <- & Hry).
+      apply (eulerian_injective v0); auto.
+    + rewrite map_length. exact L4.
+    + intros x Hx. apply in_map_iff in Hx. destruct Hx as (v' & <- & Hv').
+      apply Inc, in_map_iff in Hv'. destruct Hv' as (r & <- & Hr).
+      apply in_map_iff. exists r. split; [reflexivity | exact Hr].
+Qed.
+
+(* ------------------------------------------------------------------------------------ *)
+(** * Column labels of the static table *)
+
+(** _find_modulus_key (regex ^\D*(\d+)$): the key depends on the trailing digits only - not on the
+    digit-free prefix, hence not on letter case ("c11", "C11", "c_11", "Cij_11") *)
+Lemma key_parse_canonical_l (p p' : TextModel.bytes) (ds : list Z) :
+  ElastDat.nodigit p -> ElastDat.nodigit p' -> ds <> [] -> ElastDat.digit_range ds ->
+  ElastDatModel.find_modulus_key (p ++ map TextModel.digit_byte ds)
+  = ElastDatModel.find_modulus_key (p' ++ map TextModel.digit_byte ds).
+Proof. intros Hp Hp' Hne Hd. rewrite !ElastDat.find_key_digits by assumption. reflexivity. Qed.
+
+Lemma modkey_eqb_spec (a b : VoigtBase.modkey) : VoigtBase.modkey_eqb a b = true <-> a = b.
+Proof.
+  destruct a as [[a1 a2] [a3 a4]], b as [[b1 b2] [b3 b4]].
+  unfold VoigtBase.modkey_eqb, VoigtBase.strain_eqb. cbn [fst snd].
+  rewrite !andb_true_iff, !Z.eqb_eq. split.
+  - intros [[-> ->] [-> ->]]. reflexivity.
+  - intros E. injection E as -> -> -> ->. repeat split.
+Qed.
+Lemma static_columns_as_map_l {V} (row row' : list (VoigtBase.modkey * V)) :
+  NoDup (map fst row) -> Permutation row row' ->
+  forall k, alookup VoigtBase.modkey_eqb k row = alookup VoigtBase.modkey_eqb k row'.
+Proof. apply columns_as_map_l, modkey_eqb_spec. Qed.
